@@ -54,7 +54,7 @@ static void probe_prefix(int pre)
         w_rx(&Node, 0x000, 2, d);
         for (int s = 0; s < CO_SSDO_N; s++) { sdo_adopt(sdo_dirty_obj[s]); sdo_dirty_obj[s] = -1; sm_reset(&SM[s]); sdo_srv_off[s] = 0; }
     }
-    (void)CONodeGetErr(&Node);
+    if (!mc_opt("nopoll", 0)) (void)CONodeGetErr(&Node);
     sdo_content_force = 1; sdo_content_reset(); sdo_content_force = 0;
 }
 
